@@ -240,34 +240,41 @@ func fetchCheckpoint(runIds []string, cli client.Redis, db int, checkpointName s
 
 // clear checkpoint of dbs
 func DelCheckpoint(cli client.Redis, checkpointName string, runId string) error {
+	return DelCheckpoints(cli, checkpointName, []string{runId})
+}
+
+// DelCheckpoints deletes the records of all the given labels, one HDEL per record.
+//
+// The tool may stop between two of them, and GetCheckpoint merges the labels it is asked for. So the
+// records of ALL labels are deleted in ONE ascending order, the record GetCheckpoint reads (largest
+// offset, newest on a tie) LAST : deleted earlier - first within its label, or with its whole label
+// before another label's - a stale lower record (of another database, or under the other label, as an
+// interrupted relabel leaves it) would be the largest one left and the next start would take it for
+// the position the target holds. A record that cannot be read aborts the deletion before anything is
+// deleted : sorted without its offset it could go first.
+func DelCheckpoints(cli client.Redis, checkpointName string, runIds []string) error {
 	mp, err := getDbMap(cli)
 	if err != nil {
 		return err
 	}
 
-	cpi := CheckpointInfo{
-		Key:   checkpointName,
-		RunId: runId,
-	}
-
-	// The records are deleted one database after the other, and the tool may stop in between.
-	// The record GetCheckpoint reads (largest offset, newest on a tie) goes LAST : deleted first,
-	// a stale lower record of another database would be left as the largest one and the next
-	// start would take it for the position the target holds.
 	type dbRecord struct {
 		db     int32
+		runId  string
 		offset int64
 		mtime  int64
 	}
-	records := make([]dbRecord, 0, len(mp))
+	records := make([]dbRecord, 0, len(mp)*len(runIds))
 	for db := range mp {
-		rec := dbRecord{db: db, offset: -1}
-		if tcpi, err := fetchCheckpoint([]string{runId}, cli, int(db), checkpointName); err == nil && tcpi != nil {
-			rec.offset, rec.mtime = tcpi.Offset, tcpi.Mtime
+		for _, runId := range runIds {
+			tcpi, err := fetchCheckpoint([]string{runId}, cli, int(db), checkpointName)
+			if err != nil {
+				return err
+			}
+			records = append(records, dbRecord{db: db, runId: runId, offset: tcpi.Offset, mtime: tcpi.Mtime})
 		}
-		records = append(records, rec)
 	}
-	sort.Slice(records, func(i, j int) bool {
+	sort.SliceStable(records, func(i, j int) bool {
 		if records[i].offset != records[j].offset {
 			return records[i].offset < records[j].offset
 		}
@@ -278,8 +285,11 @@ func DelCheckpoint(cli client.Redis, checkpointName string, runId string) error 
 	})
 
 	for _, rec := range records {
-		db := rec.db
-		err := redis.SelectDB(cli, uint32(db))
+		cpi := CheckpointInfo{
+			Key:   checkpointName,
+			RunId: rec.runId,
+		}
+		err := redis.SelectDB(cli, uint32(rec.db))
 		if err != nil {
 			return err
 		}
@@ -287,7 +297,7 @@ func DelCheckpoint(cli client.Redis, checkpointName string, runId string) error 
 		if _, err := cli.Do("hdel", checkpointName, cpi.RunIdKey(), cpi.OffsetKey(), cpi.VersionKey(), cpi.MTimeKey()); err != nil {
 			return err
 		} else {
-			log.Infof("clear checkpoint : db(%d), cpName(%s), runId(%s)", db, checkpointName, runId)
+			log.Infof("clear checkpoint : db(%d), cpName(%s), runId(%s)", rec.db, checkpointName, rec.runId)
 		}
 	}
 	return nil
